@@ -101,6 +101,7 @@ BINOPS={'Add','Sub','Mul','Div','Rem','BitXor','BitAnd','BitOr','Shl','Shr','Eq'
 UNOPS={'Not','Neg','PtrMetadata'}
 def parse_rvalue(s):
     s=s.strip()
+    if s.startswith('&raw const (fake) '): return ('rawref',False,parse_place(s[18:]))
     if s.startswith('&raw const '): return ('rawref',False,parse_place(s[11:]))
     if s.startswith('&raw mut '): return ('rawref',True,parse_place(s[9:]))
     if s.startswith('&mut '): return ('ref',True,parse_place(s[5:]))
